@@ -33,13 +33,19 @@ statement only, never from `_depends`):
   demanded for the raising / discarding step itself beyond "not more often than normally");
 * sub-object family: a method depending on parameters of sub-objects ('s.x', 'r.x', next to a direct
   parameter) under update / batch that replace the sub-objects: one call per update / batch.
+* mixed-kind family (bounded/c06_mix.py): a method whose dependency set mixes values, slot specs of
+  parameters of the same object ('x', 'z:bounds', 'x:bounds', 'z:constant') and other methods that
+  reach the same parameter again, under every batching form (batch, nested batches, batch_watch,
+  update inside a batch, discard_events inside / around a batch): STRICTLY one call per batch.
 
 Lenient readings (never demand more than the statement):
 
 * a method hit by n >= 2 separate assignments made by other methods inside ONE top-level step
   (construction or one operation) is allowed 1..n calls for them;
 * a batch that changes dependencies of two different kinds at once (a parameter *value* and a
-  slot such as `p:bounds`) is allowed 1..2 calls (DESIGN.md section 7 groups by (owner, what));
+  slot such as `p:bounds`) is allowed 1..2 calls (DESIGN.md section 7 groups by (owner, what)) in the
+  class-family part; the mixed-kind family reads the statement literally (one batch = one call) and
+  the pinned tree's "one call per kind of dependency changed" is the known finding C06-b07;
 * when a method names another method as a dependency and that method resolves to an
   *undecorated* definition on K ("depends on everything" in param's convention) the parameters
   not otherwise declared are "either";
@@ -59,6 +65,7 @@ import warnings
 from concurrent.futures import ProcessPoolExecutor
 
 from bounded._api import Bounded, REPLAY_HEADER
+from bounded import c06_mix
 
 # ------------------------------------------------------------------------------------------
 # symbolic description of a family
@@ -1215,6 +1222,16 @@ def _run(tier, seed):
               "exactly, the raising / discarding step only from above. Sub-object family: a method depending "
               "on 's.x' / 's.x','r.x' / 'a','s.x' under all programs of replace / leaf set / update / batch "
               "(two slots, one slot twice, direct parameter + slot): one call per update / batch. "
+              "Mixed-kind family: class A (x, y, z) [+ B(A) empty / overriding `derived` / overriding m] with one "
+              "watch=True method m over 14 dependency sets mixing values and slot specs of the same object ('x', "
+              "'z:bounds', 'x:bounds', 'z:constant', a spec twice) and 8 sets naming methods `derived` / `derived2` "
+              "(4 x 3 dependency sets of those, with / without watch, both declaration orders) that reach the same "
+              "parameter again; operations = (form, body): body = sequence of atoms {x fresh, x same, y, z.bounds "
+              "fresh / same, z.constant toggled, x.bounds} under the forms plain set, update, batch, nested batch, "
+              "batch_watch, update inside a batch before / after slot assignments, discard_events inside a batch, "
+              "batch inside discard_events; every operation alone on a fresh instance + a seeded permutation of all "
+              "operations on one instance; oracle: exactly one call per operation changing >= 1 dependency (0..1 if "
+              "only discarded assignments hit), none otherwise, for m and for the watch=True helpers. "
               "A case = (family, class, constructor form, program); distinct by that tuple"),
         bound=("<= 4 classes, <= 2 dependent methods, dependency sets over 2 parameters + 'p:bounds' + "
                "method-on-method; programs: 13-operation permutation + programs <= 3 (sampled), all "
@@ -1222,9 +1239,9 @@ def _run(tier, seed):
                "over 10 operations; _parse_dependency_spec: all specs of <= 3 segments; assigning methods: "
                "<= 3 methods, 2 classes, assignment chains of length <= 2, all %d families%s; fault / "
                "history family: 1 raising or discarding step + <= 2 operations (quick: + 1, and a sample of 2); "
-               "sub-object family: all programs <= %d over 12 operations"
-               % ((3, 3, len(af_families(tier)), '', 3) if tier == 'thorough' else
-                  (2, 2, len(af_families(tier)), ' (without constructor keywords)', 2))))
+               "sub-object family: all programs <= %d over 12 operations; mixed-kind family: %s"
+               % ((3, 3, len(af_families(tier)), '', 3, c06_mix.bound_text(tier)) if tier == 'thorough' else
+                  (2, 2, len(af_families(tier)), ' (without constructor keywords)', 2, c06_mix.bound_text(tier)))))
     _silence()
     tasks, exhaustive, counts = enumerate_tasks(tier, seed)
     tasks += program_tasks(tier)
@@ -1251,6 +1268,9 @@ def _run(tier, seed):
         afams = af_families(tier)
         actors = (False, True) if tier == 'thorough' else (False,)
         fut_a = [ex.submit(af_run_chunk, (afams[i::48], actors)) for i in range(48)]
+        # mixed-kind family (values + slot specs + methods in one dependency set, all batching forms)
+        mchunks, m_nops, _mfull = c06_mix.tasks(tier, seed)
+        fut_m = [ex.submit(c06_mix.run_chunk, c) for c in mchunks]
         for fu in fut_f:
             for ncases, keys, cc, viols in fu.result():
                 for k in keys:
@@ -1280,6 +1300,7 @@ def _run(tier, seed):
                 B.checked(SF_CLAUSE, n)
                 if viol:
                     sfv.append(viol)
+        mix_results = [fu.result() for fu in fut_m]
     check_parse(B)
 
     # ---- representatives
@@ -1332,6 +1353,7 @@ def _run(tier, seed):
                         'site %s called %d times during %s, expected %s'
                         % (rep['site'], rep['got'], 'construction' if rep['step'] == 'init' else 'the last step',
                            (rep['lo'], rep['hi']))))
+    reports += c06_mix.collect(B, mix_results)
     reports.sort(key=lambda r: (r[0], len(r[1]), r[1]))
     per_clause, kept = {}, []
     for r in reports:
